@@ -11,6 +11,7 @@ import (
 	"database/sql"
 	"encoding/json"
 	"fmt"
+	"net/http"
 	"os"
 	"path/filepath"
 	"sort"
@@ -294,3 +295,6 @@ func Replace(fn any, with any)                   { panic("verifrt.Replace: engin
 
 // Nop is the no-op cancel function the engine hands out for context.WithTimeout/WithCancel.
 func Nop() {}
+
+// HTTPRequests returns the requests handed to the stubbed (*http.Client).Do (engine only).
+func HTTPRequests() []*http.Request { panic("verifrt.HTTPRequests: engine only") }
